@@ -1,20 +1,29 @@
 (** C08  Server failure handling: data retention, frozen servers, blacklisting.
 
-    Proved on the model (Sched/FrameP.v), for every cell state:
-      C08_retention_decision    the instances moved off an inactive server by the cycle's first phase are exactly: on a
-                                down server those whose retention has run out (since + timeout <= now; no timeout =>
-                                at once), on a frozen server those marked for unscheduling; nothing on an up server;
+    Proved on the model, for every reachable state [c] (any history of the operation alphabet satisfying the side
+    conditions wf_ops_all) and the cycle run from it  (Sched/KeepP.v, Sched/CycleP.v, Sched/Reach.v):
+      C08_keeps_placement       an instance on a server that is not up - down for less than its data-retention time,
+                                or frozen and not marked for unscheduling - that is not blacklisted, not flagged for
+                                renewal, holds an identity valid for the current group size and is not ranked beyond
+                                the utilisation cap in this cycle's queue, is on the same server, with the same expiry
+                                and identity, after the cycle (so nothing evicts it for capacity meanwhile);
+      C08_loses_placement       once the retention time has run out (or the instance on a frozen server is marked for
+                                unscheduling) it is not on that server after the cycle;
+      C08_blacklisted_unplaced  a blacklisted instance ends the cycle without a server and without an identity;
+      (a server that is not up receives no new instance: C03_new_assignment.)
+    and for every cell state (Sched/FrameP.v):
+      C08_retention_decision / C08_expired   which instances the first phase moves off an inactive server;
       C08_no_capacity_eviction_meanwhile / C08_nonup_receives_nothing
                                 the eviction scan and a fresh placement walk leave every server that is not up exactly
-                                as it was: nothing is evicted from it for capacity and nothing new is put on it;
+                                as it was;
       C08_blacklisted_skipped   the placement loop does nothing for a blacklisted instance.
-    Refuted on the code as it is (known finding, behaviour looks intended):
+    Refuted on the code as it is (known finding, behaviour looks intended), which is why C08_keeps_placement carries
+    the valid-identity premise:
       C08_shrink_refuted        an instance on a down server inside its retention window is removed when its identity
-                                group shrinks below its identity.
-    Partial: the composition over the whole cycle ("keeps its placement until ... and loses it in the first cycle
-    after that") is decided by the correspondence (virtual clock ticks at the boundary) and the C08 oracle. *)
+                                group shrinks below its identity. *)
 From Coq Require Import ZArith QArith List Bool.
-From TM Require Import Sched.Vec Sched.Types Sched.Tree Sched.Cycle Sched.Events Sched.MapsP Sched.Steps Sched.FrameP.
+From TM Require Import Sched.Vec Sched.Types Sched.Queue Sched.Tree Sched.Cycle Sched.Events Sched.MapsP Sched.Steps Sched.FrameP
+                       Sched.InvAcct Sched.InvIdent Sched.TurnP Sched.CycleP Sched.KeepP Sched.Reach.
 Import ListNotations.
 Open Scope Z_scope.
 
@@ -46,6 +55,37 @@ Theorem C08_blacklisted_skipped : forall rq st an a,
 Proof. exact place_one_blacklisted. Qed.
 Print Assumptions C08_blacklisted_skipped.
 
+Theorem C08_keeps_placement : forall c ch x a n s, reachable c ->
+  get_app x (c_apps c) = Some a -> a_server a = Some n -> get_srv n (c_servers c) = Some s -> s_state s <> Up ->
+  (s_state s = Down -> expired c (s_since s) a = false) ->
+  (s_state s = Frozen -> a_unschedule a = false) ->
+  a_blacklisted a = false -> a_renew a = false ->
+  (forall i g grp, a_identity a = Some i -> a_group a = Some g -> aget g (c_groups c) = Some grp -> i < g_count grp) ->
+  (forall label q e, In (label, q) (snd (fst (schedule c ch))) -> In e q -> e_app e = x -> e_rank e <> UNPLACED_RANK) ->
+  exists a', get_app x (c_apps (step c (OSchedule ch))) = Some a' /\ a_server a' = Some n /\
+             a_expiry a' = a_expiry a /\ a_identity a' = a_identity a.
+Proof.
+  intros c ch x a n s Hr Ha Hsv Hs Hst Hd Hf Hbl Hren Hid Hrank.
+  apply (reachable_keeps c ch x a n s (reachable_Good c Hr)); [|exact Hst|exact Hren|exact Hrank].
+  constructor; try assumption. intros i g k Hi Hg Hk. unfold gcount in Hk.
+  destruct (aget g (c_groups c)) as [grp|] eqn:E; [|discriminate]. inversion Hk; subst k. exact (Hid i g grp Hi Hg E).
+Qed.
+Print Assumptions C08_keeps_placement.
+
+Theorem C08_loses_placement : forall c ch x a n s, reachable c ->
+  get_app x (c_apps c) = Some a -> a_server a = Some n -> get_srv n (c_servers c) = Some s ->
+  (s_state s = Down /\ expired c (s_since s) a = true) \/ (s_state s = Frozen /\ a_unschedule a = true) ->
+  exists a', get_app x (c_apps (step c (OSchedule ch))) = Some a' /\ a_server a' <> Some n.
+Proof. intros c ch x a n s Hr. exact (reachable_moves c ch x a n s (reachable_Good c Hr)). Qed.
+Print Assumptions C08_loses_placement.
+
+Theorem C08_blacklisted_unplaced : forall c ch x a, reachable c ->
+  get_app x (c_apps c) = Some a -> a_blacklisted a = true ->
+  exists a', get_app x (c_apps (step c (OSchedule ch))) = Some a' /\ a_server a' = None /\
+             (a_group a' = None \/ a_identity a' = None).
+Proof. intros c ch x a Hr. exact (reachable_blacklisted c ch x a (reachable_Good c Hr)). Qed.
+Print Assumptions C08_blacklisted_unplaced.
+
 (** the code as it is: group of 3, instance 3 holds identity 2 on a server that went down at 1000 with retention 100;
     the group shrinks to 2; the cycle at 1001 removes the instance although retention lasts until 1100 *)
 Definition ex_a (n o : Z) : app :=
@@ -62,3 +102,20 @@ Theorem C08_shrink_refuted :
                  get_app 3 (c_apps c) = Some a /\ a_server a = None.
 Proof. vm_compute. eexists. eexists. eexists. repeat split; reflexivity. Qed.
 Print Assumptions C08_shrink_refuted.
+
+(** non-vacuity of C08_keeps_placement: the same history without the shrink; instance 3 sits on the down server inside
+    its retention window and is still there after the cycle *)
+Definition ex_ops_keep : list op :=
+  [ OAddBucket 2001 3 2000; OAddServer 1000 2001 [100;100;100] 4000 0 0; OConfigGroup 5000 3; OTick 1000;
+    OAddApp 4000 [] (ex_a 1 1); OAddApp 4000 [] (ex_a 2 2); OAddApp 4000 [] (ex_a 3 3);
+    OSchedule [(1, 0); (2, 1); (3, 2)]; OSetState 1000 Down 1000; OTick 1001 ].
+Example C08_keeps_nonvacuous_reachable : reachable (run (init_cell 3 2000 1) ex_ops_keep).
+Proof. exists 3%nat, 2000, 1, ex_ops_keep. split; [apply wf_ops_allb_sound; vm_compute; reflexivity|reflexivity]. Qed.
+Example C08_keeps_nonvacuous :
+  let c := run (init_cell 3 2000 1) ex_ops_keep in
+  (exists a s, get_app 3 (c_apps c) = Some a /\ a_server a = Some 1000 /\ get_srv 1000 (c_servers c) = Some s /\
+               s_state s = Down /\ expired c (s_since s) a = false /\ a_blacklisted a = false /\ a_renew a = false /\
+               a_identity a = Some 2) /\
+  forallb (fun lq => forallb (fun e => negb (Z.eqb (e_rank e) UNPLACED_RANK)) (snd lq)) (snd (fst (schedule c []))) = true /\
+  option_map a_server (get_app 3 (c_apps (step c (OSchedule [])))) = Some (Some 1000).
+Proof. vm_compute. split; [eexists; eexists; repeat split; reflexivity|split; reflexivity]. Qed.
